@@ -31,13 +31,21 @@ Record sdim := mkD { sd_axis : Z; sd_shards : Z }.
 Record spec := mkS { sp_val : valobj; sp_dev : list Z; sp_dims : list sdim }.
 Record ndc := mkDC { dc_cfg : cfgobj; dc_stage : option Z; dc_specs : list spec }.
 Record node := mkN { n_in : list (option valobj); n_out : list valobj; n_dc : list ndc }.
+(* Nesting of graphs.  Scope 0 is the main graph, scope 1 the function body, scopes >= 2 are subgraph bodies
+   (graph attributes of a node, If/Loop style, without graph inputs of their own).  s_gin lists the main graph's
+   inputs (the first sc_nmain) followed by the function's inputs. *)
+Record scinfo := mkSc {
+  sc_nmain  : nat;               (* number of main-graph inputs at the front of s_gin *)
+  sc_nscope : list (Z * Z);      (* node handle -> scope the node lives in (absent: 0) *)
+  sc_parent : list (Z * Z) }.    (* body scope -> enclosing scope *)
 Record state := mkSt {
   s_names : list (Z * str);      (* value identity -> current name; first binding wins; absent = None/"" *)
   s_nodes : list (Z * node);     (* node handle -> node, in all_nodes order (main graph, then functions) *)
   s_gin   : list valobj;         (* graph / function inputs *)
   s_cfgs  : list cfgobj;         (* Model.device_configurations *)
   s_nextv : Z; s_nextc : Z;      (* next fresh identities *)
-  s_ir    : Z }.                 (* Model.ir_version *)
+  s_ir    : Z;                   (* Model.ir_version *)
+  s_sc    : scinfo }.            (* graph nesting (constant: no op moves a node to another graph) *)
 
 Definition v_eqb (a b : valobj) : bool := (v_id a =? v_id b) && option_eqb Z.eqb (v_rank a) (v_rank b).
 Definition c_eqb (a b : cfgobj) : bool :=
@@ -59,7 +67,7 @@ Definition get_node (h : state) (n : Z) : option node :=
 Definition set_node_l (n : Z) (nd : node) (l : list (Z * node)) : list (Z * node) :=
   map (fun p => if fst p =? n then (n, nd) else p) l.
 Definition with_nodes (h : state) (l : list (Z * node)) : state :=
-  mkSt (s_names h) l (s_gin h) (s_cfgs h) (s_nextv h) (s_nextc h) (s_ir h).
+  mkSt (s_names h) l (s_gin h) (s_cfgs h) (s_nextv h) (s_nextc h) (s_ir h) (s_sc h).
 Definition set_node (h : state) (n : Z) (nd : node) : state := with_nodes h (set_node_l n nd (s_nodes h)).
 Definition with_dc (nd : node) (dcs : list ndc) : node := mkN (n_in nd) (n_out nd) dcs.
 
@@ -187,7 +195,7 @@ Definition resize_outputs (h : state) (n : Z) (k : Z) : state * res unit :=
       else
         let new := fresh_none (s_nextv h) (kn - len) in
         let h' := mkSt (s_names h) (set_node_l n (mkN (n_in nd) (n_out nd ++ new) (n_dc nd)) (s_nodes h))
-                       (s_gin h) (s_cfgs h) (s_nextv h + Z.of_nat (kn - len)) (s_nextc h) (s_ir h) in
+                       (s_gin h) (s_cfgs h) (s_nextv h + Z.of_nat (kn - len)) (s_nextc h) (s_ir h) (s_sc h) in
         (h', Ok tt)
   end.
 
@@ -204,7 +212,7 @@ Definition remove_node (h : state) (n : Z) : state * res unit :=
 
 (* ---------------------------------------------------------------- Model.add_/remove_device_configuration *)
 Definition with_cfgs_nodes (h : state) (cfgs : list cfgobj) (nodes : list (Z * node)) (nextc : Z) : state :=
-  mkSt (s_names h) nodes (s_gin h) cfgs (s_nextv h) nextc (s_ir h).
+  mkSt (s_names h) nodes (s_gin h) cfgs (s_nextv h) nextc (s_ir h) (s_sc h).
 
 Definition add_cfg (h : state) (name : str) (ndev : Z) : state * res unit :=
   if str_empty name then (h, Raise ValueError)
@@ -230,7 +238,19 @@ Definition remove_cfg_name (h : state) (name : str) (cascade : bool) : state * r
 
 (* ---------------------------------------------------------------- Value.name = ... *)
 Definition rename (h : state) (v : valobj) (name : str) : state :=
-  mkSt ((v_id v, name) :: s_names h) (s_nodes h) (s_gin h) (s_cfgs h) (s_nextv h) (s_nextc h) (s_ir h).
+  mkSt ((v_id v, name) :: s_names h) (s_nodes h) (s_gin h) (s_cfgs h) (s_nextv h) (s_nextc h) (s_ir h) (s_sc h).
+
+(* ---------------------------------------------------------------- graph nesting *)
+Definition zlookup (k : Z) (l : list (Z * Z)) : option Z :=
+  option_map snd (find (fun p => fst p =? k) l).
+Definition node_scope (h : state) (n : Z) : Z :=
+  match zlookup n (sc_nscope (s_sc h)) with Some s => s | None => 0 end.
+Definition parent_of (h : state) (s : Z) : option Z := zlookup s (sc_parent (s_sc h)).
+Definition scopes (h : state) : list Z := 0 :: 1 :: map fst (sc_parent (s_sc h)).
+
+Fixpoint depth_f (h : state) (fuel : nat) (s : Z) : nat :=
+  match fuel, parent_of h s with S f, Some p => S (depth_f h f p) | _, _ => O end.
+Definition depth (h : state) (s : Z) : nat := depth_f h (length (sc_parent (s_sc h))) s.
 
 (* ---------------------------------------------------------------- Model.clone *)
 Definition vmap := list (valobj * valobj).     (* first binding wins: later dict writes are prepended *)
@@ -255,20 +275,33 @@ Definition remap_dcs (m : vmap) (dcs : list ndc) : list ndc :=
   map (fun dc => mkDC (dc_cfg dc) (dc_stage dc)
                    (map (fun sp => mkS (vm_apply m (sp_val sp)) (sp_dev sp) (sp_dims sp)) (dc_specs dc))) dcs.
 
-(* returns cloned nodes, final map, next id, new name bindings *)
-Fixpoint clone_nodes (h : state) (m : vmap) (next : Z) (nodes : list (Z * node))
+(* Nodes are visited in all_nodes() order (a node, then the nodes of its bodies).  Cloner.clone_node maps the
+   inputs, clones the bodies, and only then enters the node's outputs into the value map: the outputs of a
+   node at nesting depth d stay PENDING while deeper nodes (its bodies) are cloned and enter the map when the
+   next node of depth <= d is reached.  The node's own device configurations are remapped with its outputs
+   in the map.  returns cloned nodes, new name bindings, next id *)
+Definition pending := list (nat * vmap).
+Fixpoint flush (d : nat) (pend : pending) (m : vmap) : pending * vmap :=
+  match pend with
+  | [] => ([], m)
+  | (d', b) :: r => if (d <=? d')%nat then flush d r (b ++ m) else (pend, m)
+  end.
+
+Fixpoint clone_nodes (h : state) (pend : pending) (m : vmap) (next : Z) (nodes : list (Z * node))
   : option (list (Z * node) * list (Z * str) * Z) :=
   match nodes with
   | [] => Some ([], [], next)
   | (n, nd) :: r =>
-      match clone_inputs m (n_in nd) with
+      let d := depth h (node_scope h n) in
+      let '(pend1, m1) := flush d pend m in
+      match clone_inputs m1 (n_in nd) with
       | None => None
       | Some ins' =>
           let outs' := fresh_from next (n_out nd) in
-          let m' := rev (combine (n_out nd) outs') ++ m in
-          let nd' := mkN ins' outs' (remap_dcs m' (n_dc nd)) in
+          let own := rev (combine (n_out nd) outs') in
+          let nd' := mkN ins' outs' (remap_dcs (own ++ m1) (n_dc nd)) in
           let names := map (fun p => (v_id (snd p), name_of h (fst p))) (combine (n_out nd) outs') in
-          match clone_nodes h m' (next + Z.of_nat (length (n_out nd))) r with
+          match clone_nodes h ((d, own) :: pend1) m1 (next + Z.of_nat (length (n_out nd))) r with
           | None => None
           | Some (r', names', next') => Some ((n, nd') :: r', names ++ names', next')
           end
@@ -279,10 +312,10 @@ Definition clone (h : state) : state * res unit :=
   let gin' := fresh_from (s_nextv h) (s_gin h) in
   let m0 := rev (combine (s_gin h) gin') in
   let names0 := map (fun p => (v_id (snd p), name_of h (fst p))) (combine (s_gin h) gin') in
-  match clone_nodes h m0 (s_nextv h + Z.of_nat (length (s_gin h))) (s_nodes h) with
+  match clone_nodes h [] m0 (s_nextv h + Z.of_nat (length (s_gin h))) (s_nodes h) with
   | None => (h, Raise RuntimeError)
   | Some (nodes', names', next') =>
-      (mkSt (names0 ++ names' ++ s_names h) nodes' gin' (s_cfgs h) next' (s_nextc h) (s_ir h), Ok tt)
+      (mkSt (names0 ++ names' ++ s_names h) nodes' gin' (s_cfgs h) next' (s_nextc h) (s_ir h) (s_sc h), Ok tt)
   end.
 
 (* ---------------------------------------------------------------- serialization of the references *)
@@ -299,15 +332,42 @@ Definition ser_dc_ok (h : state) (dc : ndc) : bool :=
 Definition ser_dc (h : state) (dc : ndc) : res pdc :=
   if ser_dc_ok h dc then Ok (c_name (dc_cfg dc), dc_stage dc, map (ser_spec h) (dc_specs dc))
   else Raise ValueError.
-Definition ser_ok (h : state) : bool :=
-  forallb (fun p => forallb (ser_dc_ok h) (n_dc (snd p))) (s_nodes h).
 
 (* ---------------------------------------------------------------- to_proto ; from_proto *)
-Definition live (h : state) : list valobj := s_gin h ++ flat_map (fun p => io (snd p)) (s_nodes h).
-(* modelled domain of the round trip: every live value has a non-empty name and names identify values *)
+(* the values DECLARED in a scope: its graph inputs and the outputs of its own nodes — what the deserializer
+   registers in that scope's name table (_deserialize_graph / _declare_node_outputs).  Values captured from an
+   enclosing graph are NOT in the table of the body that uses them. *)
+Definition decl (h : state) (s : Z) : list valobj :=
+  (if s =? 0 then firstn (sc_nmain (s_sc h)) (s_gin h)
+   else if s =? 1 then skipn (sc_nmain (s_sc h)) (s_gin h) else [])
+  ++ flat_map (fun p => if node_scope h (fst p) =? s then n_out (snd p) else []) (s_nodes h).
+
+(* name lookup through the scope stack, innermost scope first (serde._deserialize_node: `merged_values` is the
+   update of the scope tables from the outermost to the innermost, so inner names shadow outer ones) *)
+Fixpoint resolve_chain (h : state) (fuel : nat) (s : Z) (nm : str) : option valobj :=
+  match find (fun v => str_eqb (name_of h v) nm) (decl h s) with
+  | Some v => Some v
+  | None => match fuel, parent_of h s with
+            | S f, Some p => resolve_chain h f p nm
+            | _, _ => None
+            end
+  end.
+Definition resolve (h : state) (s : Z) (nm : str) : option valobj :=
+  resolve_chain h (length (sc_parent (s_sc h))) s nm.
+
+(* modelled domain of the round trip = the graph wiring itself survives it: within a scope names are non-empty
+   and identify the declared values, and every input/output of every node resolves, through the scope stack
+   of the node's graph, to itself *)
 Definition rt_domain (h : state) : bool :=
-  forallb (fun a => negb (str_empty (name_of h a))
-                    && forallb (fun b => implb (str_eqb (name_of h a) (name_of h b)) (v_eqb a b)) (live h)) (live h).
+  forallb (fun s =>
+    forallb (fun a => negb (str_empty (name_of h a))
+                      && forallb (fun b => implb (str_eqb (name_of h a) (name_of h b)) (v_eqb a b)) (decl h s))
+            (decl h s)) (scopes h)
+  && forallb (fun p =>
+       forallb (fun v => match resolve h (node_scope h (fst p)) (name_of h v) with
+                         | Some w => v_eqb w v
+                         | None => false
+                         end) (io (snd p))) (s_nodes h).
 
 Definition find_last {A} (f : A -> bool) (l : list A) : option A := find f (rev l).
 
@@ -315,56 +375,66 @@ Definition find_last {A} (f : A -> bool) (l : list A) : option A := find f (rev 
    fresh-identity counters and new name bindings for placeholders *)
 Definition rt_acc := (list (Z * str) * Z * Z)%type.   (* new name bindings, nextv, nextc *)
 
-Fixpoint rt_specs (h : state) (specs : list spec) (acc : rt_acc) : list spec * rt_acc :=
+Fixpoint rt_specs (h : state) (sc : Z) (specs : list spec) (acc : rt_acc) : list spec * rt_acc :=
   match specs with
   | [] => ([], acc)
   | sp :: r =>
       let nm := name_of h (sp_val sp) in
-      match find (fun v => str_eqb (name_of h v) nm) (live h) with
-      | Some v => let '(r', acc') := rt_specs h r acc in (mkS v (sp_dev sp) (sp_dims sp) :: r', acc')
+      match resolve h sc nm with
+      | Some v => let '(r', acc') := rt_specs h sc r acc in (mkS v (sp_dev sp) (sp_dims sp) :: r', acc')
       | None =>
           let '(names, nv, nc) := acc in
           let ph := mkV nv None in
-          let '(r', acc') := rt_specs h r ((nv, nm) :: names, nv + 1, nc) in
+          let '(r', acc') := rt_specs h sc r ((nv, nm) :: names, nv + 1, nc) in
           (mkS ph (sp_dev sp) (sp_dims sp) :: r', acc')
       end
   end.
 
-Fixpoint rt_dcs (h : state) (dcs : list ndc) (acc : rt_acc) : list ndc * rt_acc :=
+Fixpoint rt_dcs (h : state) (cfgs : list cfgobj) (sc : Z) (dcs : list ndc) (acc : rt_acc) : list ndc * rt_acc :=
   match dcs with
   | [] => ([], acc)
   | dc :: r =>
       let nm := c_name (dc_cfg dc) in
       let '(cfg, acc1) :=
-        match find_last (fun c => str_eqb (c_name c) nm) (s_cfgs h) with
+        match find_last (fun c => str_eqb (c_name c) nm) cfgs with
         | Some c => (c, acc)
         | None => let '(names, nv, nc) := acc in (mkC nc nm 0, (names, nv, nc + 1))
         end in
-      let '(specs, acc2) := rt_specs h (dc_specs dc) acc1 in
-      let '(r', acc3) := rt_dcs h r acc2 in
+      let '(specs, acc2) := rt_specs h sc (dc_specs dc) acc1 in
+      let '(r', acc3) := rt_dcs h cfgs sc r acc2 in
       (mkDC cfg (dc_stage dc) specs :: r', acc3)
-  end.
-
-Fixpoint rt_nodes (h : state) (nodes : list (Z * node)) (acc : rt_acc) : list (Z * node) * rt_acc :=
-  match nodes with
-  | [] => ([], acc)
-  | (n, nd) :: r =>
-      let '(dcs, acc1) := rt_dcs h (n_dc nd) acc in
-      let '(r', acc2) := rt_nodes h r acc1 in
-      ((n, with_dc nd dcs) :: r', acc2)
   end.
 
 Definition MULTI_DEVICE_SUPPORTED_VERSION := 11.
 
+(* which nodes get their device configurations serialized: at IR >= 11 all of them.  Below 11 the gate
+   (serde._serialize_node_multi_device_into, model_ir_version) drops them for the nodes of the main graph and of
+   functions — but serialize_graph_into is called for subgraph bodies WITHOUT the model's IR version, so nodes
+   inside bodies keep theirs (observed behaviour of the code that exists; the model configurations themselves
+   are dropped, so those references come back as placeholders). *)
+Definition rt_keep (h : state) (n : Z) : bool :=
+  (MULTI_DEVICE_SUPPORTED_VERSION <=? s_ir h) || (2 <=? node_scope h n).
+
+Definition ser_ok (h : state) : bool :=
+  forallb (fun p => negb (rt_keep h (fst p)) || forallb (ser_dc_ok h) (n_dc (snd p))) (s_nodes h).
+
+Fixpoint rt_nodes (h : state) (cfgs : list cfgobj) (nodes : list (Z * node)) (acc : rt_acc)
+  : list (Z * node) * rt_acc :=
+  match nodes with
+  | [] => ([], acc)
+  | (n, nd) :: r =>
+      let '(dcs, acc1) := if rt_keep h n then rt_dcs h cfgs (node_scope h n) (n_dc nd) acc else ([], acc) in
+      let '(r', acc2) := rt_nodes h cfgs r acc1 in
+      ((n, with_dc nd dcs) :: r', acc2)
+  end.
+
 Definition roundtrip (h : state) : state * res unit :=
   if negb (rt_domain h) then (h, Raise OtherError)           (* outside the modelled domain *)
-  else if s_ir h <? MULTI_DEVICE_SUPPORTED_VERSION then
-    (mkSt (s_names h) (map (fun p => (fst p, with_dc (snd p) [])) (s_nodes h)) (s_gin h) []
-          (s_nextv h) (s_nextc h) (s_ir h), Ok tt)
   else if negb (ser_ok h) then (h, Raise RuntimeError)        (* SerdeError *)
   else
-    let '(nodes, (names, nv, nc)) := rt_nodes h (s_nodes h) ([], s_nextv h, s_nextc h) in
-    (mkSt (rev names ++ s_names h) nodes (s_gin h) (s_cfgs h) nv nc (s_ir h), Ok tt).
+    let cfgs := if s_ir h <? MULTI_DEVICE_SUPPORTED_VERSION then [] else s_cfgs h in
+    let '(nodes, (names, nv, nc)) := rt_nodes h cfgs (s_nodes h) ([], s_nextv h, s_nextc h) in
+    (mkSt (rev names ++ s_names h) nodes (s_gin h) cfgs nv nc (s_ir h) (s_sc h), Ok tt).
 
 (* ---------------------------------------------------------------- _check_device_configurations *)
 (* a message is (kind, node handle, integer argument):
